@@ -1013,6 +1013,14 @@ func Run(c *vh.Ctx) {
 		runProbe()
 		return
 	}
+	if os.Getenv("C11_ONLY") == "px" { // development aid: only the proxy stream (C11_PXDUMP=1: print one request served alone)
+		if os.Getenv("C11_PXDUMP") != "" {
+			pxDump()
+			return
+		}
+		pxLoadStreams(c)
+		return
+	}
 	if os.Getenv("C11_ONLY") == "reg" { // development aid: only the registry stream
 		registryStreams(rn)
 		regLoadStreams(c)
